@@ -409,6 +409,8 @@ def box(v):
         return box_real(v.t)
     if isinstance(v, Opaque):
         return named_const(v.name)
+    if hasattr(v, 'as_val'):
+        return v.as_val()
     raise TypeErrorSym('cannot box %r' % (v,))
 
 
